@@ -94,6 +94,10 @@ STMT_CORES = {
     "generic_left_operand": ("r := gl(__lit1)", "gl :: fn x ->\n    __op1(x, 7)\nend\n", lambda S, I: spec_binop(S, I, right="int")),
     "generic_unary_via_variable": ("vu := __lit1\nr := gu(vu)", "gu :: fn x ->\n    __un1(x)\nend\n", spec_unary),
     "tuple_elementwise": ("r := __op1(__lit1, __lit2)", "", spec_binop),
+    # the result of a division is a float wherever it goes next (operand, variable, argument of an un-annotated function)
+    "quotient_as_left_operand": ("r := __op1(4 / 2, __lit1)", "", lambda S, I: spec_binop(S, I, left="float")),
+    "quotient_through_a_variable": ("q := 4 / 2\nr := __op1(q, __lit1)", "", lambda S, I: spec_binop(S, I, left="float")),
+    "quotient_as_argument_of_an_inferred_function": ("r := gq(4 / 2, __lit1)", "gq :: fn a, b ->\n    __op1(a, b)\nend\n", lambda S, I: spec_binop(S, I, left="float")),
 }
 # ---- blobs are unified structurally: two blob values whose field sets (names and types) differ never unify, in either order
 BLOB_DECLS = "Sm :: blob {\n    x: int,\n}\nBg :: blob {\n    x: int,\n    y: int,\n}\nOt :: blob {\n    x: int,\n}\nDf :: blob {\n    x: str,\n}\n"
@@ -197,7 +201,10 @@ def spec_binop_nested(S, I):
     inner_bool = z3.Or(o2("=="), o2("!="), o2("<=>"), o2("<"), o2(">"), o2("<="), o2(">="))
     outer_bad = z3.And(inner_bool, z3.Not(z3.Or(o1("=="), o1("!="), o1("<=>"))) )      # bool op int literal 2 is wrong unless..., == with int is wrong too
     outer_bad2 = z3.And(inner_bool, z3.BoolVal(True))                                    # a bool combined with the int literal 2 by any operator is a mismatch
-    return z3.Or(inner_bad, outer_bad2)
+    # a quotient is a float: combined with the int literal 2 it is a mismatch for every operator that wants operands of one kind
+    inner_float = z3.And(o2("/"), z3.Or(a("int"), a("float")))
+    outer_bad3 = z3.And(inner_float, z3.Or([o1(o) for o in ("+", "-", "*", "==", "!=", "<=>", "and", "or")]))
+    return z3.Or(inner_bad, outer_bad2, outer_bad3)
 CORES["binop_nested"] = (CORES["binop_nested"][0], "", spec_binop_nested, {})
 CORES["void_in_variable"] = (CORES["void_in_variable"][0], "", spec_void_var, {})
 
